@@ -3036,7 +3036,7 @@ func genPools(repo string, tiny bool) (string, []string) {
 	for _, f := range []string{"Query.countEntities", "Query.Count", "Query.entityAt", "Query.EntityAt", "World.exchangeArch", "World.exchangeBatchNoNotify", "World.setRelationArch", "World.setRelationBatchNoNotify"} {
 		t.joinIf[f] = true
 	}
-	for _, f := range []string{"World.exchangeArch", "World.exchangeBatchNoNotify", "World.setRelationArch", "World.setRelationBatchNoNotify", "World.newEntities", "World.newEntityTarget", "World.copyTo", "World.closeQuery", "World.assign", "World.notifyQuery", "World.exchangeBatch", "World.setRelationBatch", "World.exchangeBatchQuery", "World.setRelationBatchQuery"} {
+	for _, f := range []string{"World.exchangeArch", "World.exchangeBatchNoNotify", "World.setRelationArch", "World.setRelationBatchNoNotify", "World.newEntities", "World.newEntityTarget", "World.copyTo", "World.closeQuery", "World.assign", "World.notifyQuery", "World.exchangeBatch", "World.setRelationBatch", "World.exchangeBatchQuery", "World.setRelationBatchQuery", "World.newEntitiesQuery"} {
 		t.usesEff[f] = true
 		t.joinIf[f] = true
 	}
@@ -3058,7 +3058,7 @@ func genPools(repo string, tiny bool) (string, []string) {
 	t.structs["EntityEvent"] = true
 	t.effExt["archetype.Remove"] = "archRemoveF"
 	t.nilChecks = map[string]bool{}
-	for _, f := range []string{"World.exchangeBatchQuery", "World.setRelationBatchQuery", "World.exchangeBatch", "World.setRelationBatch", "World.notifyQuery", "World.assign", "World.closeQuery", "World.copyTo", "World.newEntityTarget", "World.newEntities", "World.exchangeArch", "World.exchangeBatchNoNotify", "World.setRelationArch", "World.setRelationBatchNoNotify", "Query.setArchetype", "Query.stepArchetype", "Query.nextArchetypeSimple", "Query.nextArchetypeFiltered", "Query.nextArchetypeBatch", "Query.nextBatch", "Query.nextNode", "Query.nextNodeOrArchetype", "Query.nextArchetype", "Query.Next",
+	for _, f := range []string{"World.newEntitiesQuery", "World.exchangeBatchQuery", "World.setRelationBatchQuery", "World.exchangeBatch", "World.setRelationBatch", "World.notifyQuery", "World.assign", "World.closeQuery", "World.copyTo", "World.newEntityTarget", "World.newEntities", "World.exchangeArch", "World.exchangeBatchNoNotify", "World.setRelationArch", "World.setRelationBatchNoNotify", "Query.setArchetype", "Query.stepArchetype", "Query.nextArchetypeSimple", "Query.nextArchetypeFiltered", "Query.nextArchetypeBatch", "Query.nextBatch", "Query.nextNode", "Query.nextNodeOrArchetype", "Query.nextArchetype", "Query.Next",
 		"Query.countEntities", "Query.Count", "Query.entityAt", "Query.EntityAt", "World.findArchetypeSlow", "World.findOrCreateArchetypeSlow", "World.findOrCreateArchetype", "World.NewEntity", "World.notifyExchange", "World.exchange", "World.newEntitiesNoNotify", "World.removeEntities", "World.getExchangeMask", "World.exchangeNoNotify", "World.createArchetype", "World.setRelation", "World.RemoveEntity", "World.removeArchetype", "World.cleanupArchetype", "World.cleanupArchetypes", "World.createEntity", "World.createEntities", "World.Has", "World.HasUnchecked", "World.Mask",
 		"World.relationError", "World.checkRelation", "World.getRelation", "World.getRelationUnchecked"} {
 		t.nilChecks[f] = true
@@ -3180,7 +3180,7 @@ func genPools(repo string, tiny bool) (string, []string) {
 		"batchArchetypes.Get", "batchArchetypes.Len", "batchArchetypes.Add", "World.exchangeArch", "World.exchangeBatchNoNotify", "World.setRelationArch", "World.setRelationBatchNoNotify", "World.newEntities", "World.newEntityTarget", "World.copyTo", "World.notifyQuery", "World.exchangeBatch", "World.setRelationBatch", "World.closeQuery", "World.assign", "Query.countEntities", "Query.Count", "Query.entityAt", "Query.EntityAt",
 		"Query.checkNext", "Query.setArchetype", "Query.stepArchetype", "Query.nextArchetypeSimple", "Query.nextArchetypeFiltered",
 		"Query.nextArchetypeBatch", "Query.nextBatch", "Query.nextNode", "Query.nextNodeOrArchetype", "Query.nextArchetype", "Query.Next",
-		"newBatchQuery", "World.exchangeBatchQuery", "World.setRelationBatchQuery",
+		"newBatchQuery", "World.exchangeBatchQuery", "World.setRelationBatchQuery", "World.newEntitiesQuery",
 	}
 	// which functions need the uninterpreted-function parameters (directly or through a callee)
 	calls := map[string][]string{}
